@@ -49,6 +49,12 @@ Nested == \A i, k \in Layers : i < k =>
 FarSideSeesLastRewrite == R.handlerArg[1] = 1 + Cardinality({i \in Layers : Chain(ctor, prov, added)[i] = "arg"})
 \* a retry layer hands back what its FIRST inner call returned, whatever the second produced
 FirstResultKept == \A i \in Layers : Chain(ctor, prov, added)[i] = "twice" => Len(R.handlerArg) >= 2
+\* ChainIsAValue: the chain of a client / processor / publisher / subscriber is fixed when it is constructed.  The list the
+\* caller passed is a value: handing the same list (even one with spare capacity) to a second constructor whose provider
+\* carries other middleware, or overwriting its elements afterwards, changes nothing (the drivers run every client case a
+\* second time under exactly these circumstances; named deviation: composing lazily from the retained slice)
+AfterReuse(chain, otherProv, overwrite) == chain
+ChainIsAValue == \A o \in Lists(1), w \in Lists(1) : Invoke(AfterReuse(Chain(ctor, prov, added), o, w), 1) = want
 \* the case list for the drivers
 AllCases == {[ctor |-> c, prov |-> p, added |-> a, want |-> Invoke(Chain(c, p, a), 1)] : c \in Lists(MaxLen), p \in Lists(MaxLen), a \in Lists(1)}
 ASSUME JsonSerialize("middleware_cases.json", SetToSeq(AllCases))
